@@ -62,6 +62,7 @@ func scheduleProjects(c *core.Ctx, n, years int) []*gen.Project {
 		if i%2 == 0 {
 			p.OtherFields = append(p.OtherFields, "ZZLAST")
 		}
+		p.Interleave = i%3 == 1 // files sorted by date: the lines of a field are not one block
 		inDom := func() int { return b + 1 + r.Intn(e-2-b-1+1) }
 		mk := func(k int, dupOK bool, avoidCrop bool) []int {
 			var ds []int
@@ -166,7 +167,7 @@ func scheduleProjects(c *core.Ctx, n, years int) []*gen.Project {
 			}
 			p.Till = append(p.Till, gen.TillEv{Date: d, Cm: cm, Type: 1})
 		}
-		p.Arms = []string{fmt.Sprintf("dateFormat=%d fert=%d irr=%d till=%d factor=%d otherFields=%d", p.Cfg.DateFormat, len(p.Fert), len(p.Irr), len(p.Till), p.Cfg.FertPct, len(p.OtherFields))}
+		p.Arms = []string{fmt.Sprintf("dateFormat=%d fert=%d irr=%d till=%d factor=%d otherFields=%d interleaved=%v", p.Cfg.DateFormat, len(p.Fert), len(p.Irr), len(p.Till), p.Cfg.FertPct, len(p.OtherFields), p.Interleave)}
 		ps = append(ps, p)
 	}
 	return ps
